@@ -508,6 +508,46 @@ int qsx_more_commands (const char *c)
 		if (!rv) printf ("basis %s %s\n", nc ? cs : "-", nr ? rs : "-");
 		free (cs); free (rs);
 	}
+	else if (!strcmp (c, "optstatus") || !strcmp (c, "dualstatus") || !strcmp (c, "verify"))
+	{
+		/* C12: exact verdict functions on a caller-supplied basis */
+		mpq_QSdata *p = slot ();
+		QSbasis *B = tok_basis2 ();
+		char result = 77;
+		int rv;
+		mpq_t d;
+		mpq_init (d);
+		mpq_set_si (d, 777777, 1000003);
+		if (!strcmp (c, "optstatus")) rv = QSexact_basis_optimalstatus (p, B, &result, 1);
+		else if (!strcmp (c, "dualstatus")) rv = QSexact_basis_dualstatus (p, B, &result, &d, 1);
+		else { int pre = tok_int (); rv = QSexact_verify (p, B, pre, 0, 0, &result, &d, 1); }
+		printf ("rval %d\n", rv ? 1 : 0);
+		if (!rv) { printf ("result %d\n", (int) result); printf ("dobj "); put_q (d); putchar ('\n'); }
+		mpq_clear (d);
+		free (B->cstat); free (B->rstat); free (B);
+	}
+	else if (!strcmp (c, "binvrow") || !strcmp (c, "tabrow"))
+	{
+		/* C13: rows of the basis inverse / tableau of the current basis */
+		mpq_QSdata *p = slot ();
+		int i = tok_int (), nr = mpq_QSget_rowcount (p), nc = mpq_QSget_colcount (p), rv;
+		int n = !strcmp (c, "binvrow") ? nr : nr + nc;
+		mpq_t *a = mpq_EGlpNumAllocArray (n + 1);
+		rv = !strcmp (c, "binvrow") ? mpq_QSget_binv_row (p, i, a) : mpq_QSget_tableau_row (p, i, a);
+		printf ("rc %d\n", rv ? 1 : 0);
+		if (!rv) put_qarr ("row", a, n);
+		mpq_EGlpNumFreeArray (a);
+	}
+	else if (!strcmp (c, "basisorder"))
+	{
+		mpq_QSdata *p = slot ();
+		int nr = mpq_QSget_rowcount (p), i, rv;
+		int *h = (int *) calloc (nr + 1, sizeof (int));
+		rv = mpq_QSget_basis_order (p, h);
+		printf ("rc %d\n", rv ? 1 : 0);
+		if (!rv) { printf ("order %d", nr); for (i = 0; i < nr; i++) printf (" %d", h[i]); putchar ('\n'); }
+		free (h);
+	}
 	else if (!strcmp (c, "getfile")) { char *path = unhex (tok ()); put_file (path); free (path); }
 	else return 0;
 	return 1;
